@@ -182,7 +182,9 @@ impl Universe {
                 n0 = self.notifier.get();
                 let cl = if jbool(o, "all") { None } else { Some(&classes[..]) };
                 let mut probe_bad: Option<(usize, usize)> = None;
-                let r = if jbool(o, "noblock") {
+                // (merge_external is merge_external_noblock followed by get(): operations with an even destination + external
+                //  id are issued in that form as well, so that the merge in flight can be probed)
+                let r = if jbool(o, "noblock") || (jint(o, "dst") + jint(o, "ext")) % 2 == 0 {
                     // while the merge is in flight the store is still the map it was: a count taken in the middle of the
                     // merge (the optimise callback lingers) sees every stored track (TrackStore.tla: merge_external is one
                     // action; it never changes the set of stored ids)
